@@ -44,7 +44,7 @@ run_tsan() {
 run_miri() { # args: subcommand...
   local name=$1; shift
   local log=target/miri-$name.log
-  if (cd harness && MIRIFLAGS="-Zmiri-disable-isolation -Zmiri-many-seeds=0..${MIRI_SEEDS:-16}" RUSTFLAGS="--cfg typstyle_verif" cargo +nightly miri run --offline --no-default-features --target-dir /verif/target-miri -- "$@") > $log 2>&1; then
+  if (cd harness && MIRIFLAGS="-Zmiri-disable-isolation -Zmiri-tree-borrows -Zmiri-many-seeds=0..${MIRI_SEEDS:-16}" RUSTFLAGS="--cfg typstyle_verif" cargo +nightly miri run --offline --no-default-features --target-dir /verif/target-miri -- "$@") > $log 2>&1; then
     add miri-$name ok ${MIRI_SEEDS:-16} 0 "$(grep -E '^(STRESS|SAN-TOTAL)' $log | sort | uniq -c | tr '\n' ';')" ""
   else
     local rep=$(grep -c -E "Undefined Behavior|Data race|error: unsupported" $log || true)
